@@ -167,6 +167,9 @@ class CoreMixin:
             return v.ts[0]
         if not v.ts:
             return T("u!none", U)
+        if v.ty.kind == "opt":
+            # an Optional that holds a value is injected like the value itself (narrowed and un-narrowed uses agree)
+            return smt.Ite(v.ts[0], T("u!none", U), self.to_u(opt_inner(v)))
         if len(v.ts) == 1:
             return self.uf("inj_" + v.ts[0].sort, [v.ts[0]], U)
         return self.uf("inj_" + v.ty.kind + str(len(v.ts)), v.ts, U)
